@@ -1315,6 +1315,131 @@ def unit_hashbuffer():
     return emit_unit("Src_hashbuffer.v", [u.src, "kernel/hash/hashbuffer.h"], fs, [], [("filebuffer64", class_objects(u.layouts, u.types, "filebuffer64"))], u.scalar_globals)
 
 
+# ------------------------------------------------------------------ synchronisation skeleton
+def canon(n):
+    """canonical text of a statement / expression tree (macros expanded, implicit nodes dropped): used for the functions that
+    make up the hand-over protocol, whose transition-system model (PipeConc.v) is pinned to this text (PipeSync.v)"""
+    k = n.get("kind")
+    inner = [c for c in n.get("inner", []) if c.get("kind")]
+    if k in ("ImplicitCastExpr", "ExprWithCleanups", "MaterializeTemporaryExpr", "CXXBindTemporaryExpr", "ConstantExpr", "FullExpr"):
+        return canon(inner[0]) if inner else ""
+    if k == "ParenExpr":
+        return "(" + canon(inner[0]) + ")"
+    if k == "CompoundStmt":
+        return "{ " + " ".join(stmt_text(c) for c in inner) + " }"
+    if k == "NullStmt":
+        return ";"
+    if k == "DeclStmt":
+        return " ".join(canon(c) for c in inner)
+    if k == "VarDecl":
+        t = n["type"]["qualType"]
+        return "%s %s%s;" % (t, n.get("name", ""), (" = " + canon(inner[0])) if inner else "")
+    if k == "IfStmt":
+        e = " else " + canon(inner[2]) if len(inner) > 2 else ""
+        return "if (%s) %s%s" % (canon(inner[0]), canon(inner[1]), e)
+    if k == "WhileStmt":
+        return "while (%s) %s" % (canon(inner[-2]), canon(inner[-1]))
+    if k == "DoStmt":
+        return "do %s while (%s);" % (canon(inner[0]), canon(inner[1]))
+    if k == "ForStmt":
+        raw = n["inner"]
+        parts = [canon(c) if c.get("kind") else "" for c in raw]
+        return "for (%s %s; %s) %s" % (parts[0] if parts[0].endswith(";") else parts[0] + ";", parts[2], parts[3], parts[4])
+    if k == "ReturnStmt":
+        return "return %s;" % (canon(inner[0]) if inner else "")
+    if k == "BreakStmt":
+        return "break;"
+    if k in ("BinaryOperator", "CompoundAssignOperator"):
+        return "%s %s %s" % (canon(inner[0]), n["opcode"], canon(inner[1]))
+    if k == "UnaryOperator":
+        return (canon(inner[0]) + n["opcode"]) if n.get("isPostfix") else (n["opcode"] + canon(inner[0]))
+    if k == "ConditionalOperator":
+        return "%s ? %s : %s" % tuple(canon(c) for c in inner)
+    if k == "DeclRefExpr":
+        return n["referencedDecl"].get("name", "?")
+    if k == "MemberExpr":
+        b = canon(inner[0]) if inner else ""
+        if b in ("this", ""):
+            return n.get("name", "")
+        return b + ("->" if n.get("isArrow") else ".") + n.get("name", "")
+    if k == "CXXThisExpr":
+        return "this"
+    if k in ("IntegerLiteral", "CharacterLiteral"):
+        return str(n["value"])
+    if k == "CXXBoolLiteralExpr":
+        return "true" if n["value"] else "false"
+    if k in ("GNUNullExpr", "CXXNullPtrLiteralExpr"):
+        return "NULL"
+    if k == "StringLiteral":
+        return n.get("value", "")
+    if k == "ArraySubscriptExpr":
+        return "%s[%s]" % (canon(inner[0]), canon(inner[1]))
+    if k in ("CallExpr", "CXXMemberCallExpr", "CXXOperatorCallExpr"):
+        return "%s(%s)" % (canon(inner[0]), ", ".join(canon(c) for c in inner[1:] if c.get("kind") != "CXXDefaultArgExpr"))
+    if k in ("CXXConstructExpr", "CXXTemporaryObjectExpr"):
+        t = n["type"]["qualType"]
+        return "%s(%s)" % (t, ", ".join(canon(c) for c in inner))
+    if k in ("CStyleCastExpr", "CXXStaticCastExpr", "CXXFunctionalCastExpr", "CXXReinterpretCastExpr"):
+        return "(%s)%s" % (n["type"]["qualType"], canon(inner[0]))
+    if k == "CXXNewExpr":
+        return "new %s(%s)" % (n["type"]["qualType"], ", ".join(canon(c) for c in inner))
+    if k == "CXXDeleteExpr":
+        return "delete %s" % canon(inner[0])
+    if k == "UnaryExprOrTypeTraitExpr":
+        return "sizeof(...)"
+    # expression statement wrappers and anything else: generic, still deterministic
+    return "%s<%s>" % (k, ", ".join(canon(c) for c in inner))
+
+
+def stmt_text(n):
+    t = canon(n)
+    return t if t.endswith(("}", ";")) else t + ";"
+
+
+def canon_fn(node):
+    body = [c for c in node.get("inner", []) if c.get("kind") == "CompoundStmt"][0]
+    inits = []
+    for c in node.get("inner", []):
+        if c.get("kind") == "CXXCtorInitializer" and c.get("anyInit") and c.get("inner"):
+            e = c["inner"][0]
+            if not (e.get("kind") == "CXXConstructExpr" and not e.get("inner")):
+                inits.append("%s(%s)" % (c["anyInit"]["name"], canon(e)))
+    params = ", ".join("%s %s" % (p["type"]["qualType"], p.get("name", "")) for p in node.get("inner", []) if p.get("kind") == "ParmVarDecl")
+    txt = "(" + params + ")" + ((" : " + ", ".join(inits)) if inits else "") + " { " + " ".join(stmt_text(c) for c in body.get("inner", []) if c.get("kind")) + " }"
+    return " ".join(txt.split())
+
+
+SYNC_FUNCS = [("bufferctrl", "bufferctrl", 0), ("bufferctrl", "cmpstate", 1), ("bufferctrl", "haslive", 0), ("bufferctrl", "wait_ready", 0),
+              ("bufferctrl", "wait_update", 0), ("bufferctrl", "set_ready", 1), ("bufferctrl", "set_update", 0),
+              ("iobuffer", "get_entry", 0),
+              ("buffergroup", "turn_iter", 0), ("buffergroup", "require_buffer_entry", 1), ("buffergroup", "wait_buffer_ready", 1),
+              ("buffergroup", "buffer_update", 1), ("buffergroup", "run_buffer", 1), ("buffergroup", "set_buffergroup", 4),
+              (None, "multiruncrypt_file", 2), ("multicry_master", "run_multicry", 2)]
+
+
+def unit_sync():
+    u1 = Unit("kernel/multi_aes/multi_buffergroup.cpp", None, ["bufferctrl", "buffergroup", "iobuffer"])
+    u2 = Unit("kernel/multi_aes/multicry.cpp", None, ["multiruncrypt_file", "multicry_master"])
+    rows = []
+    for cls, name, ar in SYNC_FUNCS:
+        key = (cls, name, ar)
+        u = u1 if key in u1.fdecls else u2
+        if key not in u.fdecls:
+            raise GenError("function %s%s/%d of the hand-over protocol not found" % ((cls + "::") if cls else "", name, ar))
+        rows.append(("%s%s/%d" % ((cls + "::") if cls else "", name, ar), canon_fn(u.fdecls[key][0])))
+    body = "(* GENERATED by tools/cgen.py from kernel/multi_aes/multi_buffergroup.cpp, multi_buffergroup.h, multicry.cpp -- do not edit *)\n"
+    body += "(* canonical text (macros expanded with the verification guard OFF, comments and implicit nodes dropped) of every function of the\n   buffer hand-over protocol: PipeConc.v was written from exactly this text, PipeSync.v pins it *)\n"
+    body += "From Coq Require Import List String.\nImport ListNotations.\nLocal Open Scope string_scope.\n\n"
+    body += "Definition sync_skeleton : list (string * string) :=\n  [" + ";\n   ".join("(%s,\n    %s)" % (q(f), q(t)) for f, t in rows) + "].\n"
+    os.makedirs(OUT, exist_ok=True)
+    p = os.path.join(OUT, "Sync.v")
+    old = open(p).read() if os.path.exists(p) else None
+    if old != body:
+        open(p, "w").write(body)
+        return True
+    return False
+
+
 UNITS = [("Src_sha256.v", unit_hash("Src_sha256.v", "sha256hash", "kernel/hash/sha256.cpp", [("getwdata", 0)] + HASH_METHODS)),
          ("Src_sha1.v", unit_hash("Src_sha1.v", "sha1hash", "kernel/hash/sha1.cpp", [("getwdata", 0)] + HASH_METHODS)),
          ("Src_md5.v", unit_hash("Src_md5.v", "md5hash", "kernel/hash/md5.cpp", HASH_METHODS)),
@@ -1323,7 +1448,8 @@ UNITS = [("Src_sha256.v", unit_hash("Src_sha256.v", "sha256hash", "kernel/hash/s
          ("Src_aesmode.v", unit_aesmode),
          ("Src_base64.v", unit_base64),
          ("Src_iobuffer.v", unit_iobuffer),
-         ("Src_hashbuffer.v", unit_hashbuffer)]
+         ("Src_hashbuffer.v", unit_hashbuffer),
+         ("Sync.v", unit_sync)]
 
 
 def main():
